@@ -30,6 +30,11 @@ def run(ctx):
            desc='validly signed data is presented iff now <= _expires; _expires itself is removed'),
         Ob('expiry_seq', 'ob_expiry_seq', '', packed=[('exp', 6), ('t1', 4), ('t2', 4), ('t3', 4)], timeout=tmo, confirm='confirm_expiry_seq',
            desc='the same validly signed cookie string presented three times while the clock advances (real HMAC/base64/json): every presentation is decided by the clock at that moment'),
+        Ob('history', 'ob_history', '', packed=[('expiry_kind', 3), ('o0', 10), ('o1', 10), ('o2', 10)],
+           cells=[('exp%d_o%d' % (e, a), [{'expiry_kind': e, 'o0': a}]) for e in range(3) for a in range(10)], timeout=tmo, confirm='confirm_history',
+           desc='two clients with their own cookie jars, 3 operations from {set key, read, delete key, log out (set_expires(NOW)), clear}, real application and clock: after every step each client reads back exactly what it stored'),
+        Ob('foreign_key', 'ob_foreign_key', '', packed=[('sk_i', 5), ('fk_i', 6)], timeout=tmo, confirm='confirm_foreign_key',
+           desc='cookies signed with another key (incl. the "?"-collapsed and truncated forms of non-ASCII / text server keys) are presented as empty'),
         Ob('middleware', 'ob_middleware', 'present: bool, s: str, mac_ok: bool, b64_mode: int, expiry_kind: int, now: int, sets: bool',
            pre=['len(s) <= %d' % (3 if T else 2), '0 <= b64_mode <= 2', '0 <= expiry_kind <= 2', 'all(c in ALPHA for c in s)', '0 <= now <= 10'],
            cells=[('len%d_exp%d_sets%s' % (n, e, st), ['len(s) == %d' % n, 'expiry_kind == %d' % e, 'sets == %s' % st])
